@@ -54,6 +54,7 @@ def run_failing(
     max_actions: int = 200,
     queue_wait: float = 0.0,
     busy_block: float = 0.0,
+    wait_on_attempt: int | None = None,
 ) -> RetryObs:
     """``exc_for_attempt(i)`` (i = 0,1,..) gives the exception attempt i raises, or None to succeed."""
     obs = RetryObs()
@@ -76,6 +77,12 @@ def run_failing(
             if (queue_wait or busy_block) and getattr(ev, "uid", 1) == 0:
                 await asyncio.sleep(queue_wait or busy_block)
                 return None
+            if wait_on_attempt is not None and sum(1 for a in obs.attempts if a.raised is not None) == wait_on_attempt:
+                # this attempt first waits for an answer from outside (suspends the invocation; the body is entered again
+                # once the answer is there and then gets it from this same call): waiting is not an attempt
+                from vmc.events import Ask, Resp
+
+                await ctx.wait_for_event(Resp, waiter_id="rw", waiter_event=Ask(uid=1), timeout=None)
             i = counter["n"]
             counter["n"] += 1
             ri = ctx.retry_info()
@@ -111,6 +118,20 @@ def run_failing(
         hd = wf.run(run_id="retry-run")
         e.consume_stream(hd)
         cfg.stop_when = lambda hh: hd.is_done() and hh.stream_done
+        if wait_on_attempt is not None:
+            answered = {"n": 0}
+
+            def answer(hh: Any) -> None:
+                # the client answers as soon as the wait exists
+                if answered["n"] == 0 and hh.runners and any(w.resolved_event is None for ws in hh.runners[-1].state.workers.values()
+                                                              for w in ws.collected_waiters):
+                    answered["n"] = 1
+                    from vmc.engine import Action
+                    from vmc.events import Resp
+
+                    e.add_script([Action("answer the wait", lambda: hd.ctx.send_event(Resp(uid=1, key="k")))])
+
+            cfg.on_quiescent.append(answer)
         e.drive()
         obs.stuck = e.stuck
         obs.capped = e.capped
